@@ -9,8 +9,12 @@ EXPLANATION = ("B1 identifier octet - decided by exhaustive literal evaluation: 
                "(class, structure, number <= 30) and must emit the one octet class<<6 | structure<<5 | number (above 30: 0x1F in the low bits first); "
                "the reader gives back the triple the writer wrote; a header cut off before the length octet is answered with Incomplete; "
                "TagClass / TagStructure discriminants equal their from_u8 tables (evaluated for all 256 inputs); B2 length - the writer uses "
-               "the short form iff length < 128 and the reader iff the first octet < 128 (same operator and constant on both sides), the "
-               "long-form marker is count | 0x80 against len - 128, only definite forms are emitted; B3 BOOLEAN emits {0xFF} / {0x00}, "
+               "the short form iff length < 128 (B2m) and the reader iff the first octet < 128: the length reader is interpreted on literal input for each of "
+               "the 256 first octets (short form: the octet itself and the input after it; long form: exactly X & 0x7f octets read, the remainder right after them), "
+               "on literal length fields of every count 0..9 (and zero-padded ones up to 127 octets) for the value - the big-endian number, whichever code path "
+               "computes it for that count -, and on every (first octet, fewer length octets buffered than announced) pair, which must be answered Incomplete; on its "
+               "enumerated paths every error is the failure of a primitive or Incomplete under a condition that says octets are missing (nothing is refused for how a "
+               "length is written); only definite forms are emitted; B3 BOOLEAN emits {0xFF} / {0x00}, "
                "NULL emits empty content, every into_structure passes id / class through and keeps the children in order; B4 the TLV "
                "parser returns the slice after the announced length as remainder in both the primitive and the constructed arm, and the "
                "encoder leaves in its output buffer, on every path, what the buffer held before, the identifier octets of (class, structure of the payload, id), "
@@ -27,6 +31,184 @@ EXPLANATION = ("B1 identifier octet - decided by exhaustive literal evaluation: 
 TRUSTED = ['nom bits/bytes primitives', 'to_be_bytes']
 UNDECIDED = ['round-trip equality of arbitrary trees taken whole (its necessary conditions B1-B5 are decided)']
 ASSUMPTIONS = []
+
+def hexs(bs):
+    return ' '.join('%02x' % x for x in bs) or '(none)'
+
+def check_length_reader(ctx, f):
+    """B2 (reader).  What the length reader must do is a function of its input octets that is simple to state: the empty input asks
+    for more; a first octet X < 128 is the length itself (short form), the remainder is the input after it; a first octet X >= 128
+    announces n = X & 0x7f further octets (long form): with fewer than n buffered the answer is Incomplete (ask for more, never an
+    error), otherwise the length is their big-endian value and the remainder is the input after them; every definite length a peer
+    can write is accepted, minimal or not.  Decided in two parts, neither of which looks at how the reader is written (nom's take or
+    a length test and split_at, `len - 128` or `len & 0x7f`, `?` or match, parse_uint / a fold / from_be_bytes / one match arm per
+    octet count for the value):
+
+    (exact literal evaluation)  the reader's typed HIR is interpreted on literal inputs - rules/nomlit.py holds the exact models of
+    the nom primitives on literal input, helpers of the workspace are evaluated interprocedurally, slice patterns / split_at / get
+    on literal octets are decided by absx - and must yield the one literal answer:
+      form-by-first-octet / short-form / long-form - for each of the 256 first octets X, on [X] ++ P ++ trailer with P the n octets
+        00 .. 00 n (no octets for X < 128) and the trailer empty resp. 5A A5: Ok((trailer, X)) for X < 128, Ok((trailer, n)) otherwise -
+        this decides which form is taken, that exactly n octets are read and that the remainder starts right after them, for every X;
+      long-form-value - for every count n = 0..9 of length octets (and zero-padded fields up to 127 octets) on a set of octet strings
+        per count (distinct octets, high-bit octets, all-ones, all-zero, leading zeros, a single low / high octet): the value is the
+        big-endian number of the n octets - whichever code path computes it for that count;
+      shortfall-is-incomplete - for every long-form X and every number k < n of length octets buffered (all 8128 pairs), and for the
+        empty input: the answer is Err(Incomplete), not an error (a frame split inside its length field would kill the connection)
+        and not a value (a truncated length).
+    (paths, symbolic input)  no-extra-rejection - every error path of the reader is the failure of one of its primitives (a nom parser
+      applied to input, the shared unsigned reader, the final conversion to usize), or answers Incomplete on a path whose condition
+      says that octets are missing (a length bounded from above, an emptiness test that holds, a read that found nothing): nothing
+      is refused for what the octets *are* (more than 8 length octets, leading zeros, a non-minimal form)."""
+    import nomlit
+    RL = hirq.Body(f, f.body('lber::parse::parse_length'))
+    ctx.analysed['bodies'].add(RL.path)
+    here = loc(RL.root)
+    pb = [b for b, d in RL.defs.items() if d['kind'] == 'param' and not d['proj']]
+    if len(pb) != 1:
+        ctx.fail('anchor-missing', 'input of the length reader', here, 'the length reader must take exactly one parameter (its input octets)')
+        return
+    inl = lambda c: c.startswith('lber::parse::') or c.startswith('lber::common::') or c.startswith('<lber::')
+    def read(octets):
+        """('ok', remainder octets, value) | ('err', 'Incomplete' / 'Error' / 'Failure') | ('?', what was found instead)"""
+        I = absx.Interp(f, RL, unroll=140, combinators=True, inline=inl, summaries=[nomlit.summary])
+        env = I.param_env()
+        env[pb[0]] = ('lit', bytes(octets))
+        res = [o for o in I.run(env=env) if o.kind in ('val', 'ret', 'div', 'loop')]
+        if len(res) != 1 or res[0].kind not in ('val', 'ret'):
+            return ('?', 'a panic' if [o.kind for o in res] == ['div'] else 'outcomes: %s' % [o.kind for o in res])
+        v = res[0].val
+        while v[0] == 'tryerr':
+            v = v[1]
+        if v[0] == 'ctor' and v[1] == 'Ok' and len(v[2]) == 1 and v[2][0][0] == 'tuple' and len(v[2][0][1]) == 2:
+            rest, val = v[2][0][1]
+            if rest[0] == 'lit' and isinstance(rest[1], bytes) and val[0] == 'lit' and isinstance(val[1], int) and not isinstance(val[1], bool):
+                return ('ok', rest[1], val[1])
+        if v[0] == 'ctor' and v[1] == 'Err' and len(v[2]) == 1 and v[2][0][0] == 'ctor' and v[2][0][1].startswith('Err::'):
+            return ('err', v[2][0][1][len('Err::'):])
+        return ('?', absx.fmt(v)[:70])
+    def show(r):
+        return 'Ok((%s, %d))' % (hexs(r[1][:4]) + (' .. %d more' % (len(r[1]) - 4) if len(r[1]) > 4 else ''), r[2]) if r[0] == 'ok' else 'Err(%s)' % r[1] if r[0] == 'err' else r[1]
+    # ---- every first octet: the form, the number of octets read, the remainder
+    wrong = {'form-by-first-octet': [], 'short-form': [], 'long-form': []}
+    for x in range(256):
+        n = x - 128 if x >= 128 else 0
+        P = n.to_bytes(n, 'big') if n else b''
+        for trailer in (b'', b'\x5a\xa5'):
+            inp = bytes([x]) + P + trailer
+            got = read(inp)
+            want = ('ok', trailer, x if x < 128 else n)
+            if got == want:
+                continue
+            other = ('ok', P + trailer, x) if x >= 128 else None          # (what the short form would answer)
+            if x < 128:
+                kind = 'short-form' if got[0] == 'ok' and got[1] == trailer else 'form-by-first-octet'
+            else:
+                kind = 'form-by-first-octet' if got == other else 'long-form'
+            wrong[kind].append((x, '%s yields %s, expected %s' % (hexs(inp[:6]) + (' ..' if len(inp) > 6 else ''), show(got), show(want))))
+    def xs_of(lst):
+        import framelen
+        return framelen.classes(x for x, _m in lst)
+    w = wrong['form-by-first-octet']
+    ctx.add('B2.reader-form-by-first-octet', 'X < 128', here, not w,
+            'the short form must be taken exactly when the first octet is < 128 and the long form otherwise (interpreted on literal input for all 256 first octets; wrong for %s): %s' % (xs_of(w), w[0][1] if w else ''))
+    w = wrong['short-form']
+    ctx.add('B2.reader-short-form', 'len < 128', here, not w,
+            'reader short form must yield the first octet itself and the input after it (interpreted for all 128 first octets < 128; wrong for %s): %s' % (xs_of(w), w[0][1] if w else ''))
+    w = wrong['long-form']
+    ctx.add('B2.reader-long-form', 'X & 0x7f octets', here, not w,
+            'reader long form must read exactly (first octet & 0x7f) octets after the first octet, yield their value and the input after them (interpreted on literal input '
+            '[X, 00 .. 00 n, trailer] for all 128 first octets >= 128; wrong for %s): %s' % (xs_of(w), w[0][1] if w else ''))
+    # ---- the value of the long form
+    vecs = []
+    for n in range(0, 10):
+        vecs += [bytes(range(1, n + 1)), bytes(0x80 + i for i in range(n)), b'\xff' * n, b'\x00' * n]
+        if n:
+            vecs += [b'\x00' * (n - 1) + b'\x81', b'\x7f' + b'\x00' * (n - 1), b'\x01' + b'\x00' * (n - 2) + b'\x05' if n >= 2 else b'\x05', b'\x00' + bytes(range(0xa1, 0xa0 + n))]
+    for n in (10, 11, 12, 16, 33, 64, 65, 127):
+        vecs += [b'\x00' * (n - 8) + bytes(range(1, 9)), b'\x00' * (n - 8) + b'\xff' * 8, b'\x00' * (n - 1) + b'\x2a', b'\x00' * (n - 2) + b'\x01\x00']
+    vecs = sorted({v for v in vecs if int.from_bytes(v, 'big') < 2 ** 64}, key=lambda v: (len(v), v))
+    bad = []
+    for P in vecs:
+        for trailer in (b'', b'\x5a'):
+            got = read(bytes([0x80 + len(P)]) + P + trailer)
+            want = int.from_bytes(P, 'big')
+            if got != ('ok', trailer, want):
+                bad.append('%d length octets: %s yields %s, big-endian %d' % (len(P), hexs(P) if len(P) <= 12 else hexs(P[:2]) + ' .. ' + hexs(P[-8:]), got[2] if got[0] == 'ok' and got[1] == trailer else show(got), want))
+                break
+    ctx.add('B2.reader-long-form-value', 'big-endian', here, not bad,
+            'the length announced in the long form is the big-endian value of the length octets (interpreted exactly on %d literal length fields of 0..9 octets and zero-padded ones up to 127 octets): '
+            '%s - an element of that size is cut short or over-read, and everything after it in the stream is misparsed' % (len(vecs), '; '.join(bad[:3])))
+    ctx.floor('B2', 'literal length fields the long-form value was decided on', len(vecs), 80)
+    # ---- fewer octets buffered than announced: ask for more
+    bad, n_short = [], 0
+    for x in range(129, 256):
+        n = x - 128
+        P = n.to_bytes(n, 'big')
+        first = None
+        for k in range(n):
+            n_short += 1
+            got = read(bytes([x]) + P[:k])
+            if got != ('err', 'Incomplete') and first is None:
+                first = (x, 'first octet %02x with %d of its %d length octets buffered is answered %s' % (x, k, n, show(got)))
+        if first is not None:
+            bad.append(first)
+    got = read(b'')
+    if got != ('err', 'Incomplete'):
+        bad.insert(0, (0, 'the empty input is answered %s' % show(got)))
+    ctx.add('B2.reader-shortfall-is-incomplete', 'k < n octets', here, not bad,
+            'a length field that has not arrived completely must be answered with Incomplete (interpreted on literal input for every long-form first octet and every number of '
+            'buffered length octets below the announced one, %d inputs, and for the empty input): %s%s - a frame split inside its length octets kills the connection, or is read with a truncated length'
+            % (n_short, bad[0][1] if bad else '', (' (and for first octets %s)' % xs_of(bad[1:])) if len(bad) > 1 else ''))
+    ctx.floor('B2', 'short length fields evaluated', n_short, 8128)
+    # ---- paths: nothing is refused for what the octets are
+    routs = [o for o in absx.Interp(f, RL, combinators=True, generic_loops=True).run() if o.kind in ('val', 'ret')]          # (a loop over the length octets: one generic iteration, then on)
+    def primitive(v):
+        # a nom parser applied to input (directly, or the parser a combinator returned), the shared unsigned reader, a checked integer conversion
+        def one(y):
+            if y[0] != 'call':
+                return False
+            if y[1] == '<indirect>':
+                return bool(y[2]) and y[2][0][0] == 'call' and y[2][0][1].startswith('nom::')
+            return y[1].startswith('nom::') or y[1] == 'lber::parse::parse_uint' or 'TryFrom' in y[1] or y[1].endswith('::try_from') or y[1].endswith('::try_into')
+        return sem.has(v, one)
+    def says_short(a, t):
+        """the atom, with this truth value, says that some slice holds fewer octets than wanted / nothing was found where an octet was looked for"""
+        while a[0] == 'not':
+            a, t = a[1], not t
+        is_len = lambda y: y[0] == 'call' and y[1].rsplit('::', 1)[-1] in ('len', 'input_len', 'remaining')
+        if a[0] == 'bin' and len(a) == 4 and a[1] in ('Lt', 'Le', 'Gt', 'Ge', 'Eq'):
+            op, l, r = a[1], a[2], a[3]
+            if a[1] == 'Eq':
+                return t and ((is_len(l) and r == ('lit', 0)) or (is_len(r) and l == ('lit', 0)))
+            if sem.has(r, is_len) and not sem.has(l, is_len):
+                l, r, op = r, l, {'Lt': 'Gt', 'Gt': 'Lt', 'Le': 'Ge', 'Ge': 'Le'}[op]
+            if sem.has(l, is_len) and not sem.has(r, is_len):
+                return (op in ('Lt', 'Le')) == t          # the length is bounded from above
+            return False
+        if a[0] == 'call' and a[1].rsplit('::', 1)[-1] == 'is_empty':
+            return t
+        if a[0] == 'is' and a[2] == 'Some' and a[1][0] == 'call' and a[1][1].startswith('core::slice::<impl [T]>::') \
+                and a[1][1].rsplit('::', 1)[-1] in ('first', 'last', 'get', 'split_first', 'split_last', 'split_at_checked', 'split_first_chunk', 'first_chunk'):
+            return not t
+        return False
+    n_rej = 0
+    for o in routs:
+        if not sem.is_err_result(o.val):
+            continue
+        n_rej += 1
+        cause = sem.failed(o, primitive)
+        if not cause:
+            v = o.val
+            while v[0] == 'tryerr':
+                v = v[1]
+            asks = v[0] == 'ctor' and v[1] == 'Err' and v[2] and v[2][0][0] == 'ctor' and v[2][0][1].rsplit('::', 1)[-1] == 'Incomplete'
+            cause = asks and any(says_short(sem.strip_site(a), t) for a, t in o.st.pc)
+        ctx.add('B2.reader-no-extra-rejection', 'parse_length', here, cause,
+                'the length reader rejects its input on a path where none of its primitives (be_u8, take, parse_uint, conversion to usize) failed - or answers a short buffer with an error instead of Incomplete: a valid definite length is refused, or a frame split inside its length octets kills the connection (%s)' %
+                ', '.join(('' if t else '!') + absx.fmt(a)[:50] for a, t in o.st.pc[-2:]))
+    ctx.floor('B2', 'error paths of the length reader', n_rej, 3)
+
 
 def check_parse_uint(ctx, f, R):
     """The shared unsigned reader (length octets, message IDs, result codes, page sizes): decided by exact evaluation of its body
@@ -836,106 +1018,7 @@ def run(ctx):
     WL = hirq.Body(f, f.body('lber::write::write_length'))
     ctx.analysed['bodies'].add(WL.path)
     wouts = absx.Interp(f, WL, unroll=1).run()
-    # the length reader, decided on its enumerated paths and exhaustively over the first octet (0..255):
-    #   short form exactly for X < 128, yielding X and the input after that octet;
-    #   long form exactly for X >= 128, reading exactly X - 128 octets with the *streaming* take (a short buffer asks for more)
-    #   and yielding their big-endian value; and no rejection other than the propagated failure of those primitives or of the
-    #   final conversion to usize (every definite length a peer can write is accepted, minimal or not)
-    RL = hirq.Body(f, f.body('lber::parse::parse_length'))
-    ctx.analysed['bodies'].add(RL.path)
-    routs = [o for o in absx.Interp(f, RL, combinators=True).run() if o.kind in ('val', 'ret')]
-    firsts = {sem.strip_site(t) for o in routs for i, cal, args, node in sem.calls(o, lambda c: c == 'nom::number::streaming::be_u8') for t in [('call', cal, args, None)]}
-    ctx.add('B2.reader-first-octet', 'be_u8', loc(RL.root), len(firsts) == 1 and list(firsts)[0][2] == (('param', 'i'),), 'the length reader must start by reading one octet of its input with streaming be_u8')
-    if len(firsts) == 1:
-        fcall = list(firsts)[0]
-        X = ('field', ('variant', fcall, 'Ok', 0), '1')
-        REST = ('field', ('variant', fcall, 'Ok', 0), '0')
-        def feasible(o, x):
-            """the tests of this path that depend only on the first octet hold for X = x"""
-            for a, t in o.st.pc:
-                a2 = sem.strip_site(a)
-                if sem.has(a2, lambda y: y == X) and not sem.has(a2, lambda y: y[0] == 'call' and y != fcall):
-                    try:
-                        if bool(absx.eval_term(a2, {X: x})) != t:
-                            return False
-                    except absx.NotEvaluable:
-                        return None
-            return True
-        succ = [o for o in routs if sem.is_ok_result(o.val)]
-        errs = [o for o in routs if sem.is_err_result(o.val)]
-        short = [o for o in succ if not sem.calls(o, lambda c: 'take' in c.rsplit('::', 1)[-1] or c == 'lber::parse::parse_uint')]
-        longp = [o for o in succ if o not in short]
-        ok_dom = len(short) == 1 and len(longp) == 1
-        bad = []
-        if ok_dom:
-            for x in range(256):
-                fs, fl = feasible(short[0], x), feasible(longp[0], x)
-                if fs is None or fl is None or fs != (x < 128) or fl != (x >= 128):
-                    bad.append(x)
-        ctx.add('B2.reader-form-by-first-octet', 'X < 128', loc(RL.root), ok_dom and not bad,
-                'the short form must be taken exactly when the first octet is < 128 and the long form otherwise (evaluated for all 256 values; wrong for %s)' % bad[:6])
-        if len(short) == 1:
-            v = sem.strip_site(short[0].val)
-            oks = v[0] == 'ctor' and v[2][0][0] == 'tuple' and v[2][0][1][0] == REST
-            vals = []
-            if oks:
-                try:
-                    vals = [x for x in range(128) if absx.eval_term(v[2][0][1][1], {X: x}) != x]
-                except absx.NotEvaluable:
-                    oks = False
-            ctx.add('B2.reader-short-form', 'len < 128', loc(RL.root), oks and not vals, 'reader short form must yield the first octet itself and the input after it')
-        okr = False
-        if len(longp) == 1:
-            o = longp[0]
-            tk = sem.calls(o, lambda c: 'take' in c.rsplit('::', 1)[-1] or 'split' in c.rsplit('::', 1)[-1])
-            pu = sem.calls(o, lambda c: c == 'lber::parse::parse_uint')
-            if len(tk) == 1 and tk[0][1] == 'nom::bytes::streaming::take' and len(pu) == 1:
-                cnt = sem.strip_site(tk[0][2][0])
-                try:
-                    okr = all(absx.eval_term(cnt, {X: x}) == x - 128 for x in range(128, 256))
-                except absx.NotEvaluable:
-                    okr = False
-                # the octets taken are what parse_uint reads, from the input right after the first octet
-                app = [c for c in sem.calls(o, lambda c: c == '<indirect>') if sem.strip_site(c[2][0]) == sem.strip_site(('call', tk[0][1], tk[0][2], None))]
-                okr = okr and len(app) == 1 and sem.strip_site(app[0][2][1]) == REST and sem.has(pu[0][2][0], lambda y: y[0] == 'call' and y[1] == '<indirect>')
-        shortfall_count = None
-        if not okr and len(longp) == 1:
-            # the same read written by hand: the input after the first octet is cut at `count` (split_at / slicing), after a test that
-            # `count` octets are there; the first part is what parse_uint reads, the second part is the remainder returned
-            o = longp[0]
-            pu = sem.calls(o, lambda c: c == 'lber::parse::parse_uint')
-            sp = sem.calls(o, lambda c: c.rsplit('::', 1)[-1] == 'split_at')
-            if len(pu) == 1 and len(sp) == 1 and sem.strip_site(sp[0][2][0]) == REST:
-                cnt = sem.strip_site(sp[0][2][1])
-                spt = sem.strip_site(('call', sp[0][1], sp[0][2], None))
-                try:
-                    okr = all(absx.eval_term(cnt, {X: x}) == x - 128 for x in range(128, 256))
-                except absx.NotEvaluable:
-                    okr = False
-                v = sem.strip_site(o.val)
-                rem = v[2][0][1][0] if v[0] == 'ctor' and v[2] and v[2][0][0] == 'tuple' else None
-                enough = any(t is False and sem.strip_site(a) == ('bin', 'Lt', ('call', a[2][1], (REST,), None), cnt) for a, t in o.st.pc
-                             if a[0] == 'bin' and a[1] == 'Lt' and a[2][0] == 'call' and a[2][1].rsplit('::', 1)[-1] in ('len', 'input_len'))
-                okr = okr and enough and sem.strip_site(pu[0][2][0]) == ('field', spt, '0') and rem == ('field', spt, '1')
-                if okr:
-                    shortfall_count = cnt
-        ctx.add('B2.reader-long-form', 'len - 128 octets', loc(RL.root), okr,
-                'reader long form must take exactly (first octet - 128) octets from the input after the first octet - with nom\'s streaming take, or by hand after testing that they are there - and read them as an unsigned integer')
-        n_rej = 0
-        for o in errs:
-            cause = sem.failed(o, lambda v: sem.has(v, lambda y: y[0] == 'call' and (y[1] in ('nom::number::streaming::be_u8', '<indirect>', 'lber::parse::parse_uint') or 'TryFrom' in y[1] or y[1].endswith('::try_from') or y[1].endswith('::try_into'))))
-            n_rej += 1
-            if not cause and shortfall_count is not None:
-                # hand-written read: fewer than `count` octets buffered - the only acceptable answer is Incomplete (ask for more)
-                short_in = any(t is True and a[0] == 'bin' and a[1] == 'Lt' and a[2][0] == 'call' and a[2][1].rsplit('::', 1)[-1] in ('len', 'input_len')
-                               and sem.strip_site(a[2][2][0]) == REST and sem.strip_site(a[3]) == shortfall_count for a, t in o.st.pc)
-                v = o.val
-                asks = v[0] == 'ctor' and v[1] == 'Err' and v[2] and v[2][0][0] == 'ctor' and v[2][0][1].rsplit('::', 1)[-1] == 'Incomplete'
-                cause = short_in and asks
-            ctx.add('B2.reader-no-extra-rejection', 'parse_length', loc(RL.root), cause,
-                    'the length reader rejects its input on a path where none of its primitives (be_u8, take, parse_uint, conversion to usize) failed - or answers a short buffer with an error instead of Incomplete: a valid definite length is refused, or a frame split inside its length octets kills the connection (%s)' %
-                    ', '.join(('' if t else '!') + absx.fmt(a)[:50] for a, t in o.st.pc[-2:]))
-        ctx.floor('B2', 'error paths of the length reader', n_rej, 3)
+    check_length_reader(ctx, f)
 
     check_parse_uint(ctx, f, 'B6')
 
